@@ -78,6 +78,11 @@ def extra_kinds():
         "report_query_writer_waiting": ("REPORT", "/u/cal/", QUERY, {"_writer_after_unlock": True}, L, 207),
         "put_if_match_fails": ("PUT", "/u/cal/a.ics", scenarios.ev("a", "x"), {"HTTP_IF_MATCH": '"nope"'}, L, 412),
         "put_invalid_body": ("PUT", "/u/cal/q.ics", "BEGIN:VCALENDAR\r\nnonsense", {}, L, 400),
+        # the preconditions clients really send: "create, do not overwrite" and "replace what I have seen"
+        "put_if_none_match_new": ("PUT", "/u/cal/fresh.ics", scenarios.ev("fresh"), {"HTTP_IF_NONE_MATCH": "*"}, L, 201),
+        "put_if_none_match_exists": ("PUT", "/u/cal/a.ics", scenarios.ev("a", "x"), {"HTTP_IF_NONE_MATCH": "*"}, L, 412),
+        "put_if_none_match_cache_miss": ("PUT", "/u/cal/a.ics", scenarios.ev("a", "x"), {"HTTP_IF_NONE_MATCH": "*", "_wipe_cache": True}, L, 412),
+        "delete_if_match_star": ("DELETE", "/u/cal/a.ics", None, {"HTTP_IF_MATCH": "*"}, L, 200),
         "put_uid_conflict": ("PUT", "/u/cal/other.ics", scenarios.ev("a"), {}, L, 409),
         "delete_missing": ("DELETE", "/u/cal/nope.ics", None, {}, L, 404),
         "delete_if_match_fails": ("DELETE", "/u/cal/a.ics", None, {"HTTP_IF_MATCH": '"nope"'}, L, 412),
